@@ -132,7 +132,9 @@ fn signal_name(sig: i32) -> String {
 pub fn replay_in_child(path: &Path, env: &[(String, String)], limit: Duration) -> ReplayOutcome {
     let exe = std::env::current_exe().expect("current_exe");
     let mut cmd = Command::new(exe);
-    cmd.arg("replay-json").arg(path).stdout(Stdio::piped()).stderr(Stdio::null()).stdin(Stdio::null());
+    cmd.arg("replay-json").arg(path).stdout(Stdio::piped()).stderr(Stdio::piped()).stdin(Stdio::null());
+    // a backtrace on stderr lets an abort (allocation failure, stack overflow has none) be attributed to a site
+    cmd.env("RUST_BACKTRACE", "1");
     for (k, v) in env {
         cmd.env(k, v);
     }
@@ -147,8 +149,15 @@ pub fn replay_in_child(path: &Path, env: &[(String, String)], limit: Duration) -
         let _ = std::io::Read::read_to_string(&mut stdout, &mut s);
         s
     });
+    let mut stderr = child.stderr.take().unwrap();
+    let he = std::thread::spawn(move || {
+        let mut b = Vec::new();
+        let _ = std::io::Read::read_to_end(&mut stderr, &mut b);
+        String::from_utf8_lossy(&b).into_owned()
+    });
     let end = wait_with_timeout(&mut child, limit);
     let out = h.join().unwrap_or_default();
+    let err = he.join().unwrap_or_default();
     match end {
         ChildEnd::Exited(_) => {
             for line in out.lines().rev() {
@@ -158,13 +167,44 @@ pub fn replay_in_child(path: &Path, env: &[(String, String)], limit: Duration) -
             }
             ReplayOutcome { pass: false, fails: vec![], error: Some(format!("no outcome from replay child: {}", trunc(&out, 300))) }
         }
-        ChildEnd::Signaled(s) => ReplayOutcome {
-            pass: false,
-            fails: vec![Fail::new(format!("abort:{}", signal_name(s)), format!("process died with {}", signal_name(s)))],
-            error: None,
-        },
+        ChildEnd::Signaled(s) => {
+            let (site, first_line) = abort_site(&err);
+            let sig = match site {
+                Some(f) => format!("abort:{}:{}", signal_name(s), f),
+                None => format!("abort:{}", signal_name(s)),
+            };
+            ReplayOutcome { pass: false, fails: vec![Fail::new(sig, format!("process died with {} — {}", signal_name(s), trunc(&first_line, 300)))], error: None }
+        }
         ChildEnd::TimedOut => ReplayOutcome { pass: false, fails: vec![Fail::new("hang", format!("no result within {:?}", limit))], error: None },
     }
+}
+
+/// From the stderr of an aborted process: the innermost noodles function on the backtrace (frame
+/// name without the hash) and the first diagnostic line.
+fn abort_site(stderr: &str) -> (Option<String>, String) {
+    let lines: Vec<&str> = stderr.lines().collect();
+    let first = lines.iter().find(|l| l.contains("memory allocation") || l.contains("overflowed its stack") || l.contains("panicked") || l.contains("fatal runtime error")).map(|s| s.trim().to_string()).unwrap_or_default();
+    for w in lines.windows(2) {
+        let (name, at) = (w[0].trim(), w[1].trim());
+        if at.starts_with("at ") && at.contains("/noodles-") && !at.contains("/registry/") {
+            // "14: noodles_bam::io::reader::header::reference_sequences::read_reference_sequences"
+            let f = name.split_once(": ").map(|x| x.1).unwrap_or(name);
+            let f = match f.rfind("::h") {
+                Some(i) if f.len() - i == 19 && f[i + 3..].chars().all(|c| c.is_ascii_hexdigit()) => &f[..i],
+                _ => f,
+            };
+            return (Some(f.chars().take(120).collect()), first);
+        }
+    }
+    (None, first)
+}
+
+/// Abort / hang signatures without an attributed site are qualified with the sub-check name.
+fn qualify_fails(fails: Vec<Fail>, sub: &str) -> Vec<Fail> {
+    fails
+        .into_iter()
+        .map(|f| if f.sig == "hang" || (f.sig.starts_with("abort:") && f.sig.matches(':').count() < 2) { Fail::new(format!("{}@{}", f.sig, sub), f.msg) } else { f })
+        .collect()
 }
 
 struct SubAgg {
@@ -275,10 +315,13 @@ pub fn run_property(prop: &Property, tier: Tier) -> i32 {
     let results: Arc<Mutex<Vec<(usize, usize, Result<ShardResult, String>, Option<serde_json::Value>)>>> = Arc::new(Mutex::new(Vec::new()));
     let exe = std::env::current_exe().expect("current_exe");
     let nworkers = prop.max_parallel.max(1).min(njobs.max(1));
+    let partials: Arc<Mutex<Vec<(usize, Option<ShardResult>)>>> = Arc::new(Mutex::new(Vec::new()));
+    let known_ref = &known_set;
     std::thread::scope(|scope| {
         for _ in 0..nworkers {
             let queue = queue.clone();
             let results = results.clone();
+            let partials = partials.clone();
             let exe = exe.clone();
             let base_tmp = base_tmp.clone();
             let prop_ref = &*prop;
@@ -291,44 +334,96 @@ pub fn run_property(prop: &Property, tier: Tier) -> i32 {
                     let cur = base_tmp.join(format!("{}-{}.cur", s.name(), job.shard));
                     let tmp = base_tmp.join(format!("{}-{}.d", s.name(), job.shard));
                     let _ = std::fs::create_dir_all(&tmp);
-                    let mut cmd = Command::new(&exe);
-                    cmd.arg("shard")
-                        .arg(prop_ref.id)
-                        .arg(s.name())
-                        .arg(job.shard.to_string())
-                        .arg(job.nshards.to_string())
-                        .arg(tier.name())
-                        .arg(seed.to_string())
-                        .arg(job.cases.to_string())
-                        .arg(&out)
-                        .arg(&cur)
-                        .arg(&tmp)
-                        .stdin(Stdio::null())
-                        .stdout(Stdio::null())
-                        .stderr(Stdio::null());
-                    if std::env::var("NV_DEBUG").is_ok() {
-                        cmd.stderr(Stdio::inherit());
-                    }
-                    for (k, v) in &s.opts().env {
-                        cmd.env(k, v);
-                    }
                     let limit = Duration::from_secs(tier.pick(s.opts().timeout_s.0, s.opts().timeout_s.1));
-                    let res = match cmd.spawn() {
-                        Err(e) => (Err(format!("spawn failed: {e}")), None),
-                        Ok(mut child) => {
-                            let end = wait_with_timeout(&mut child, limit);
-                            let cur_case = std::fs::read(&cur).ok().and_then(|b| serde_json::from_slice::<serde_json::Value>(&b).ok());
-                            match end {
-                                ChildEnd::Exited(0) => match std::fs::read(&out).ok().and_then(|b| serde_json::from_slice::<ShardResult>(&b).ok()) {
-                                    Some(r) => (Ok(r), None),
-                                    None => (Err("shard produced no result file".to_string()), None),
-                                },
-                                ChildEnd::Exited(c) if c == shard::EXIT_CASE_TIMEOUT => (Err("case-timeout".to_string()), cur_case),
-                                ChildEnd::Exited(c) => (Err(format!("shard exited with code {c}")), cur_case),
-                                ChildEnd::Signaled(sg) => (Err(format!("signal:{}", signal_name(sg))), cur_case),
-                                ChildEnd::TimedOut => (Err("timeout".to_string()), cur_case),
+                    let ckpt_path = cur.with_extension("ckpt");
+                    let mut skip: u64 = 0;
+                    let mut acc: Option<ShardResult> = None;
+                    let mut restarts = 0u32;
+                    let res: (Result<ShardResult, String>, Option<serde_json::Value>) = loop {
+                        let _ = std::fs::remove_file(&out);
+                        let _ = std::fs::remove_file(&cur);
+                        let _ = std::fs::remove_file(&ckpt_path);
+                        let _ = std::fs::remove_file(cur.with_extension("idx"));
+                        let mut cmd = Command::new(&exe);
+                        cmd.arg("shard")
+                            .arg(prop_ref.id)
+                            .arg(s.name())
+                            .arg(job.shard.to_string())
+                            .arg(job.nshards.to_string())
+                            .arg(tier.name())
+                            .arg(seed.to_string())
+                            .arg(job.cases.to_string())
+                            .arg(&out)
+                            .arg(&cur)
+                            .arg(&tmp)
+                            .env("NV_SKIP_CASES", skip.to_string())
+                            .stdin(Stdio::null())
+                            .stdout(Stdio::null())
+                            .stderr(Stdio::null());
+                        if std::env::var("NV_DEBUG").is_ok() {
+                            cmd.stderr(Stdio::inherit());
+                        }
+                        for (k, v) in &s.opts().env {
+                            cmd.env(k, v);
+                        }
+                        let mut child = match cmd.spawn() {
+                            Err(e) => break (Err(format!("spawn failed: {e}")), None),
+                            Ok(c) => c,
+                        };
+                        let end = wait_with_timeout(&mut child, limit);
+                        let cur_case = std::fs::read(&cur).ok().and_then(|b| serde_json::from_slice::<serde_json::Value>(&b).ok());
+                        let why = match end {
+                            ChildEnd::Exited(0) => match std::fs::read(&out).ok().and_then(|b| serde_json::from_slice::<ShardResult>(&b).ok()) {
+                                Some(r) => {
+                                    break (Ok(match acc.take() {
+                                        Some(a) => a.merge(r),
+                                        None => r,
+                                    }), None);
+                                }
+                                None => "shard produced no result file".to_string(),
+                            },
+                            ChildEnd::Exited(c) if c == shard::EXIT_CASE_TIMEOUT => "case-timeout".to_string(),
+                            ChildEnd::Exited(c) => format!("shard exited with code {c}"),
+                            ChildEnd::Signaled(sg) => format!("signal:{}", signal_name(sg)),
+                            ChildEnd::TimedOut => "timeout".to_string(),
+                        };
+                        // abnormal end: is it a listed known abort/hang of the case that was running?
+                        let ckpt = std::fs::read(&ckpt_path).ok().and_then(|b| serde_json::from_slice::<ShardResult>(&b).ok());
+                        if s.opts().isolate && restarts < 40 {
+                            if let Some(case) = &cur_case {
+                                let tmp_replay = base_tmp.join(format!("{}-{}.attr.json", s.name(), job.shard));
+                                let rf = ReplayFile { property: prop_ref.id.into(), sub: s.name().into(), seed, tier: tier.name().into(), case: case.clone(), fails: vec![] };
+                                let _ = std::fs::write(&tmp_replay, serde_json::to_vec(&rf).unwrap());
+                                let o = replay_in_child(&tmp_replay, &s.opts().env, Duration::from_secs(s.opts().case_budget_s * 10));
+                                let fails = qualify_fails(o.fails.clone(), s.name());
+                                let hang_ok = !fails.iter().any(|f| f.sig.starts_with("hang")) || s.opts().hang_is_violation;
+                                if o.error.is_none() && !o.pass && !fails.is_empty() && hang_ok && fails.iter().all(|f| known_ref.contains(&f.sig)) {
+                                    let mut part = ckpt.clone().unwrap_or_default();
+                                    for f in &fails {
+                                        *part.excluded_known.entry(f.sig.clone()).or_insert(0) += 1;
+                                    }
+                                    let idx = std::fs::read_to_string(cur.with_extension("idx")).ok().and_then(|t| t.trim().parse::<u64>().ok());
+                                    let next = idx.map(|i| i + 1).unwrap_or(part.started.max(skip) + 1).max(skip + 1);
+                                    acc = Some(match acc.take() {
+                                        Some(a) => a.merge(part),
+                                        None => part,
+                                    });
+                                    // the checkpoint is written after a case completes: the case that died is `started` (0-based) of the checkpoint
+                                    skip = next;
+                                    restarts += 1;
+                                    continue;
+                                }
                             }
                         }
+                        // not a listed known finding: hand over to the attribution below, keeping what was counted
+                        if let Some(c) = ckpt {
+                            acc = Some(match acc.take() {
+                                Some(a) => a.merge(c),
+                                None => c,
+                            });
+                        }
+                        partials.lock().unwrap().push((job.sub_idx, acc.take()));
+                        break (Err(why), cur_case);
                     };
                     let _ = std::fs::remove_dir_all(&tmp);
                     results.lock().unwrap().push((job.sub_idx, job.shard, res.0, res.1));
@@ -401,7 +496,7 @@ pub fn run_property(prop: &Property, tier: Tier) -> i32 {
                 let fails: Vec<Fail> = o
                     .fails
                     .into_iter()
-                    .map(|f| if f.sig == "hang" || f.sig.starts_with("abort:") { Fail::new(format!("{}@{}", f.sig, s.name()), f.msg) } else { f })
+                    .map(|f| if f.sig == "hang" || (f.sig.starts_with("abort:") && f.sig.matches(':').count() < 2) { Fail::new(format!("{}@{}", f.sig, s.name()), f.msg) } else { f })
                     .collect();
                 if let Some(first) = fails.iter().find(|x| !known_set.contains(&x.sig)).cloned() {
                     if seen_fail_sigs.insert(format!("{}|{}", s.name(), first.sig)) {
@@ -418,6 +513,20 @@ pub fn run_property(prop: &Property, tier: Tier) -> i32 {
         }
     }
 
+    for (si, part) in std::mem::take(&mut *partials.lock().unwrap()) {
+        if let Some(r) = part {
+            let agg = aggs.entry(si).or_insert_with(|| SubAgg { cases: 0, evals: 0, keys: BTreeSet::new(), labels: BTreeMap::new(), wall_s: 0.0 });
+            agg.cases += r.cases;
+            agg.evals += r.evals;
+            agg.keys.extend(r.nontrivial_keys.iter().copied());
+            for (l, c) in &r.labels {
+                *agg.labels.entry(l.clone()).or_insert(0) += c;
+            }
+            for (l, c) in &r.excluded_known {
+                *excluded.entry(l.clone()).or_insert(0) += c;
+            }
+        }
+    }
     let mut all_keys: BTreeSet<u64> = BTreeSet::new();
     let mut evaluations = 0u64;
     let mut subchecks = serde_json::Map::new();
@@ -626,7 +735,7 @@ pub fn replay_main(lookup: &dyn Fn(&str) -> Option<Property>, path: &str) -> i32
     let mut rc = 0;
     for f in &o.fails {
         // abort/hang signatures are qualified with the sub-check name in KNOWN_FINDINGS
-        let q = if f.sig == "hang" || f.sig.starts_with("abort:") { format!("{}@{}", f.sig, rf.sub) } else { f.sig.clone() };
+        let q = if f.sig == "hang" || (f.sig.starts_with("abort:") && f.sig.matches(':').count() < 2) { format!("{}@{}", f.sig, rf.sub) } else { f.sig.clone() };
         if known.contains(&q) {
             println!("KNOWN-FINDING: property={} sig={} {}", rf.property, q, trunc(&f.msg, 600));
         } else {
